@@ -153,4 +153,18 @@ theorem keepFirstBy_spec {α κ : Type} [DecidableEq κ] (keyf : α → κ) (ps 
       _ = firstOcc ((ps.map fun p => (keyf p, p)).map Prod.fst) := h1
       _ = firstOcc (ps.map keyf) := by rw [hL]
 
+/-- DISTINCT over one value repeated: that value once -/
+theorem distinguishBy_replicate {κ : Type} [DecidableEq κ] (key : Profile → κ) (v : Profile) (n : Nat) :
+    distinguishBy key (List.replicate n v) = if n = 0 then [] else [v] := by
+  cases n with
+  | zero => rfl
+  | succ n =>
+    have aux : ∀ m, keepFirstAux ([key v], [(key v, v)]) (List.replicate m (key v, v)) = ([key v], [(key v, v)]) := by
+      intro m
+      induction m with
+      | zero => rfl
+      | succ m ih => simp [List.replicate_succ, keepFirstAux, ih]
+    simp only [distinguishBy, List.map_replicate, List.replicate_succ, keepFirst, keepFirstAux, List.not_mem_nil,
+      if_false, List.nil_append, aux, Nat.add_one_ne_zero, List.map_cons, List.map_nil]
+
 end Csvq.Agg
